@@ -6,6 +6,8 @@ def stages(tier):
          "timeout": 300, "timeout_thorough": 1800},
         {"name": "interval", "cmd": "evict", "args": ["-stage", "interval"], "check": "Check.Evict.check_interval",
          "timeout": 300, "timeout_thorough": 1800},
+        {"name": "overwritewindow", "cmd": "cachesched", "args": ["-prop", "C13"], "check": "a store of another key between the two counter updates of an overwriting store (cache below its limit throughout) evicts nothing (forced schedule at the cache API, direct)",
+         "timeout": 120, "timeout_thorough": 300},
     ]
 
 TRUSTED = [
